@@ -1,7 +1,7 @@
 (* Receiver/Proofs.v — the statements used by Props/C16.v and Props/C08_receiver.v *)
 From Coq Require Import List NArith ZArith Bool Lia Arith Relations.
 From Coq Require Import ZifyN ZifyNat ZifyBool.
-From LS Require Import Receiver.Model Receiver.Basics Receiver.Inv Receiver.Progress.
+From LS Require Import Receiver.Model Receiver.Basics Receiver.Inv Receiver.Progress Receiver.Own.
 Import ListNotations.
 Open Scope N_scope.
 
@@ -244,12 +244,24 @@ Proof.
   destruct (once_not_early _ _ _ R E) as (_ & A & _). contradiction.
 Qed.
 
-Theorem once_exits c s :
+(* state-level form: no poll has skipped a new own name while the own instance was waited for *)
+Theorem once_exits_state c s :
   good c s -> s_started s = true -> quiescent c s ->
-  c_once c = true -> s_ownskip s = false -> s_exited s = true.
+  c_once c = true -> (own_waiting c s = true -> s_ownskip s = false) -> s_exited s = true.
 Proof.
   intros G ST Q ON OS. destruct (s_exited s) eqn:EX; [reflexivity|].
   exfalso. eapply quiescent_once; eassumption.
+Qed.
+
+(* environment-level form: histories in which nobody stores under the own instance's name, or deletes the
+   own snapshot the receiver is after, while the own instance is waited for (Receiver/Own.v [calm]) *)
+Theorem once_exits c h s :
+  reach_calm c h s -> synced s -> s_started s = true -> quiescent c s ->
+  c_once c = true -> s_exited s = true.
+Proof.
+  intros R SY ST Q ON. eapply once_exits_state; try eassumption.
+  - split; [eapply reach_inv; eapply reach_calm_reach; exact R | exact SY].
+  - eapply calm_no_ownskip; exact R.
 Qed.
 
 (* a successful listing puts the system into a state from which C16_progress applies *)
@@ -269,43 +281,133 @@ Proof.
     rewrite <- app_assoc. cbn. eapply IH; [|exact H]. eapply reachS; eassumption.
 Qed.
 
-(* ---- the run-once wedge: the own instance's newest snapshot does not decode ---- *)
+Lemma run_reach_calm c : forall ls h s s',
+  reach_calm c h s -> forallb (fun l => true) ls = true ->
+  (fix go (s : state) (ls : list label) : option state :=
+     match ls with
+     | [] => Some s
+     | l :: r => if calm c s l then match step c s l with Some s1 => go s1 r | None => None end else None
+     end) s ls = Some s' -> reach_calm c (rev ls ++ h) s'.
+Proof.
+  induction ls as [|l r IH]; cbn; intros h s s' R _ H.
+  - inversion H; subst. exact R.
+  - destruct (calm c s l) eqn:CA; [|discriminate]. destruct (step c s l) as [s1|] eqn:E; [|discriminate].
+    rewrite <- app_assoc. cbn. eapply IH; [|reflexivity|exact H]. eapply rcS; eassumption.
+Qed.
+
+Fixpoint run_calm (c : cfg) (s : state) (ls : list label) : option state :=
+  match ls with
+  | [] => Some s
+  | l :: r => if calm c s l then match step c s l with Some s1 => run_calm c s1 r | None => None end else None
+  end.
+
+Lemma run_calm_reach c ls s' : run_calm c (init c) ls = Some s' -> reach_calm c (rev ls ++ []) s'.
+Proof. intros H. apply (run_reach_calm c ls [] (init c) s'); [constructor | reflexivity | exact H]. Qed.
+
+(* ---- regression: the run-once wedge of the rule BEFORE the fix in receiver.RunOnce ---- *)
 (* own instance 0 has an older good snapshot (seq 0) and a newest undecodable one (seq 1).  Start-up
    listing (includingOwn) -> downloader 0 loads seq 1 -> decode fails -> marked corrupt, d.last = seq 1 ->
    retry: lastSeen is still seq 1 = d.last -> back to the outer select.  The next poll (includingOwn =
-   false) ignores seq 1, promotes seq 0, but skips the own instance: nobody wakes downloader 0.
-   waitingForInstances = {0} forever; with only_once the program never returns, and in any mode the
-   "wait for own snapshot before writing a new one" guard of syncLoop never opens. *)
+   false) ignores seq 1 and promotes seq 0.
+   OLD rule  `if !includingOwn && inst == r.ownInstance { continue }`: the own instance is skipped,
+   nobody wakes downloader 0, waitingForInstances = {0} for ever (replayed on the real Sync before the fix).
+   NEW rule  `... && !r.ignoredFilenames[lastNotified.FullName]`: the downloader is signalled, seq 0 is
+   delivered, the loop bottom exits. *)
+Definition notify_old (c : cfg) (j : N) (s : state) : option state :=
+  match s_pend s with
+  | None => None
+  | Some (incl, m) =>
+      match alook m j with
+      | None => None
+      | Some x =>
+          let s0 := set_pend s (pend_of incl (adel m j)) in
+          if oname_eqb (Some x) (s_notif s j) then Some s0
+          else if negb incl && (j =? c_own c) then Some (set_ownskip s0 true)
+          else
+            let s1 := match s_dl s j with
+                      | Some d => set_dl s0 (upd (s_dl s) j (Some (mkDl true (d_last d) (d_phase d))))
+                      | None => set_dls (set_dl s0 (upd (s_dl s) j (Some (mkDl true None Idle)))) (s_dls s ++ [j])
+                      end in
+            Some (set_notif s1 (upd (s_notif s) j (Some x)))
+      end
+  end.
+Definition step_old (c : cfg) (s : state) (l : label) : option state :=
+  match l with LNotify j => notify_old c j s | _ => step c s l end.
+Fixpoint run_old (c : cfg) (s : state) (ls : list label) : option state :=
+  match ls with
+  | [] => Some s
+  | l :: r => match step_old c s l with Some s' => run_old c s' r | None => None end
+  end.
+
 Definition wedge_cfg : cfg := mkCfg 0 1 1 true.
 Definition wedge_trace : list label :=
   [LPublish 0 true KSnap; LPublish 0 false KSnap; LListOk true; LNotify 0; LWake 0; LCheck 0;
    LAcqDl 0; LLoadOk 0; LAcqDc 0; LDecode 0; LRetry 0; LCheck 0; LListOk false; LNotify 0].
-Definition wedge_state : state :=
-  Eval vm_compute in match run wedge_cfg (init wedge_cfg) wedge_trace with Some s => s | None => init wedge_cfg end.
+Definition wedge_rest : list label :=
+  [LWake 0; LCheck 0; LAcqDl 0; LLoadOk 0; LAcqDc 0; LDecode 0; LNext 0; LClose; LBottom].
 
-Lemma wedge_run : run wedge_cfg (init wedge_cfg) wedge_trace = Some wedge_state.
+(* old rule: after the trace nothing is pending, downloader 0 is idle without a signal, it has only dealt
+   with the corrupt seq 1, the good seq 0 is lastSeen but was never notified, and every further downloader
+   or syncer step of instance 0 is disabled *)
+Lemma wedge_old_rule :
+  exists s, run_old wedge_cfg (init wedge_cfg) wedge_trace = Some s /\
+    s_pend s = None /\ s_wait s = [0] /\ s_exited s = false /\ s_deliv s = [] /\
+    s_dl s 0 = Some (mkDl false (Some (mkName 0 1 false KSnap)) Idle) /\
+    alook (s_seen s) 0 = Some (mkName 0 0 true KSnap) /\ s_notif s 0 = Some (mkName 0 1 false KSnap) /\
+    step_old wedge_cfg s (LWake 0) = None /\ step_old wedge_cfg s (LNext 0) = None /\
+    (exists s', step_old wedge_cfg s LBottom = Some s' /\ s_wait s' = [0] /\ s_exited s' = false).
+Proof. vm_compute. eexists. repeat split. eexists. repeat split. Qed.
+
+(* new rule: the same history goes on to deliver seq 0 and to exit *)
+Lemma wedge_new_rule :
+  exists s, run_calm wedge_cfg (init wedge_cfg) (wedge_trace ++ wedge_rest) = Some s /\
+    s_deliv s = [mkName 0 0 true KSnap] /\ s_wait s = [] /\ s_exited s = true /\ s_ownskip s = false.
+Proof. vm_compute. eexists. repeat split. Qed.
+
+(* ---- what remains false without the environment assumption ---- *)
+(* own instance 0 has seq 0 (good), seq 1 (undecodable), seq 2 (good, newest).  Start-up notifies seq 2;
+   a cleaner deletes seq 2 before it is loaded (Load fails, the downloader sleeps); the poll promotes seq 1
+   but skips the own instance (seq 2 is not ignored, only gone); the retry loop picks seq 1 up by itself,
+   it does not decode and is marked corrupt; the next poll promotes seq 0 and skips again.  Nobody wakes
+   downloader 0.  Needs the deletion of the newest own snapshot during start-up AND an undecodable
+   next-newest one. *)
+Definition resid_trace : list label :=
+  [LPublish 0 true KSnap; LPublish 0 false KSnap; LPublish 0 true KSnap; LListOk true; LNotify 0;
+   LWake 0; LCheck 0; LAcqDl 0; LDelete (mkName 0 2 true KSnap); LLoadFail 0;
+   LListOk false; LNotify 0; LRetry 0; LCheck 0; LAcqDl 0; LLoadOk 0; LAcqDc 0; LDecode 0; LRetry 0; LCheck 0;
+   LListOk false; LNotify 0].
+Definition resid_state : state :=
+  Eval vm_compute in match run wedge_cfg (init wedge_cfg) resid_trace with Some s => s | None => init wedge_cfg end.
+
+Lemma resid_run : run wedge_cfg (init wedge_cfg) resid_trace = Some resid_state.
 Proof. vm_compute. reflexivity. Qed.
 
-Lemma wedge_quiescent : quiescent wedge_cfg wedge_state.
+Lemma resid_quiescent : quiescent wedge_cfg resid_state.
 Proof.
   split; [reflexivity|].
   intros l s' IN ST. destruct l; cbn [internal] in IN; try discriminate IN.
   all: try (vm_compute in ST; discriminate ST).
   all: try (vm_compute; reflexivity).
-  all: destruct j; vm_compute in ST; discriminate ST.
+  all: destruct j; try (vm_compute in IN; discriminate IN); vm_compute in ST; discriminate ST.
 Qed.
 
-Theorem once_exits_refuted :
+Theorem once_exits_unconditional_refuted :
   exists c h s, reach c h s /\ good c s /\ s_started s = true /\ quiescent c s /\ c_once c = true /\
                 s_exited s = false /\ s_wait s = [c_own c] /\
-                newest_ok (s_bucket s) (c_own c) <> None /\ last_deliv (s_deliv s) (c_own c) = None.
+                newest_ok (s_bucket s) (c_own c) <> None /\ last_deliv (s_deliv s) (c_own c) = None /\
+                ~ reach_calm c h s.
 Proof.
-  exists wedge_cfg, (rev wedge_trace ++ []), wedge_state.
-  assert (R : reach wedge_cfg (rev wedge_trace ++ []) wedge_state)
-    by (apply (run_reach wedge_cfg wedge_trace [] (init wedge_cfg)); [constructor | exact wedge_run]).
-  split; [exact R|]. split.
-  - split; [eapply reach_inv; exact R | vm_compute; reflexivity].
-  - repeat split; try reflexivity; try apply wedge_quiescent. vm_compute. discriminate.
+  exists wedge_cfg, (rev resid_trace ++ []), resid_state.
+  assert (R : reach wedge_cfg (rev resid_trace ++ []) resid_state)
+    by (apply (run_reach wedge_cfg resid_trace [] (init wedge_cfg)); [constructor | exact resid_run]).
+  assert (G : good wedge_cfg resid_state)
+    by (split; [eapply reach_inv; exact R | vm_compute; reflexivity]).
+  split; [exact R|]. split; [exact G|].
+  repeat split; try reflexivity; try apply resid_quiescent.
+  - vm_compute. discriminate.
+  - intros RC. assert (E : s_exited resid_state = true).
+    { eapply once_exits; [exact RC | apply G | reflexivity | apply resid_quiescent | reflexivity]. }
+    vm_compute in E. discriminate.
 Qed.
 
 (* ------------------------------------------------------------------ *)
